@@ -7,28 +7,28 @@ Local Open Scope N_scope.
 (* the front channel is never observably closed before the disconnect reason is recorded; the only shutdowns without
    a reason are those not caused by an error: the client was dropped, or read_task's clean-exit branch ran (dead code:
    no TransportReceiverT can make it run) *)
-Theorem C09_cause_before_close : forall tr, let s := run false init tr in
+Theorem C09_cause_before_close : forall tr, let s := run VNow init tr in
   front_closed s = true -> (exists c, reason s = Some c) \/ dropped s = true \/ h_recvend s = true.
 Proof. exact cause_before_close. Qed.
 Print Assumptions C09_cause_before_close.
 
 (* the recorded reason is the first result that entered close_tx *)
-Theorem C09_reason_is_first_report : forall tr c, let s := run false init tr in
+Theorem C09_reason_is_first_report : forall tr c, let s := run VNow init tr in
   reason s = Some c -> h_first s = Some (Some c).
 Proof. exact reason_is_first_report. Qed.
 Print Assumptions C09_reason_is_first_report.
 
-Theorem C09_no_placeholder : forall tr h, let s := run false init tr in
+Theorem C09_no_placeholder : forall tr h, let s := run VNow init tr in
   h_recvend s = false -> get_c s h <> Some (CDone OPlaceholder).
 Proof. exact no_placeholder. Qed.
 Print Assumptions C09_no_placeholder.
 
-Theorem C09_observed_cause_is_reason : forall tr h c, let s := run false init tr in
+Theorem C09_observed_cause_is_reason : forall tr h c, let s := run VNow init tr in
   get_c s h = Some (CDone (OCause c)) -> reason s = Some c /\ h_first s = Some (Some c).
 Proof. exact observed_cause_is_reason. Qed.
 Print Assumptions C09_observed_cause_is_reason.
 
-Theorem C09_all_pending_fail_with_cause : forall tr, let s := run false init tr in
+Theorem C09_all_pending_fail_with_cause : forall tr, let s := run VNow init tr in
   sp s = SExited -> rp s = RExited -> dropped s = false -> h_recvend s = false ->
   exists c, reason s = Some c /\ h_first s = Some (Some c) /\ is_connected s = false /\
     forall h,
@@ -37,44 +37,59 @@ Theorem C09_all_pending_fail_with_cause : forall tr, let s := run false init tr 
       | Some (CDone (OCause c')) => c' = c
       | Some (CDone OPlaceholder) => False
       | Some CGone => False
-      | Some _ => get_c (run false s [LCallerDropped h; LReadErr h]) h = Some (CDone (OCause c))
-      | None => get_c (run false s [LNewCall h; LReadErr h]) h = Some (CDone (OCause c)) /\
-                get_c (run false s [LOnDisc h; LReadErr h]) h = Some (CDone (OCause c))
+      | Some _ => get_c (run VNow s [LCallerDropped h; LReadErr h]) h = Some (CDone (OCause c))
+      | None => get_c (run VNow s [LNewCall h; LReadErr h]) h = Some (CDone (OCause c)) /\
+                get_c (run VNow s [LOnDisc h; LReadErr h]) h = Some (CDone (OCause c))
       end.
 Proof. exact all_pending_fail_with_cause. Qed.
 Print Assumptions C09_all_pending_fail_with_cause.
 
 (* bounded-measure progress: once the shutdown has started, every protocol step strictly decreases mu <= 11, no step
    increases it, some protocol step is enabled while mu > 0, and mu = 0 is the all-exited state.  The completion of
-   the transport's close() is one of the protocol steps (assumption: close() terminates). *)
-Theorem C09_progress : forall tr, let s := run false init tr in
+   the transport's close() is one of the protocol steps (assumption: close() terminates) -- only the END of the send task
+   depends on it, what callers observe does not (C09_pending_fail_without_transport_close). *)
+Theorem C09_progress : forall tr, let s := run VNow init tr in
   started s = true ->
   (mu s <= 11)%nat /\
-  (forall l, (mu (step false s l) <= mu s)%nat) /\
-  (forall l, is_proto l = true -> enabled false s l = true -> (mu (step false s l) < mu s)%nat) /\
+  (forall l, (mu (step VNow s l) <= mu s)%nat) /\
+  (forall l, is_proto l = true -> enabled VNow s l = true -> (mu (step VNow s l) < mu s)%nat) /\
   (mu s = 0%nat <-> all_exited s = true) /\
-  ((mu s > 0)%nat -> exists l, is_proto l = true /\ enabled false s l = true) /\
-  all_exited (drive false false (mu s) s) = true.
+  ((mu s > 0)%nat -> exists l, is_proto l = true /\ enabled VNow s l = true) /\
+  all_exited (drive VNow false (mu s) s) = true.
 Proof. exact progress. Qed.
 Print Assumptions C09_progress.
 
-(* FINDING (current tree): calls registered in the manager are not failed until the transport's close() has returned *)
-Theorem C09_pending_fail_before_transport_close_refuted :
-  exists tr h, let s := run false init tr in
+(* CURRENT tree (after "fix: async client: fail pending calls before closing the transport"): once the reason is
+   recorded, the front channel closed and the read task gone, every caller that is queued, registered in the manager
+   or inside read_error completes with that cause by its own two steps after ANY continuation that does not drop the
+   client -- in particular continuations in which the transport's close() never completes *)
+Theorem C09_pending_fail_without_transport_close : forall tr h c, let s := run VNow init tr in
+  reason s = Some c -> front_closed s = true -> rp s = RExited ->
+  (get_c s h = Some CQueued \/ get_c s h = Some CInMgr \/ get_c s h = Some CReadErr) ->
+  forall tr', ~ In LClientDrop tr' ->
+    let s' := run VNow s tr' in
+    get_c (run VNow s' [LCallerDropped h; LReadErr h]) h = Some (CDone (OCause c)).
+Proof. exact pending_fail_without_transport_close. Qed.
+Print Assumptions C09_pending_fail_without_transport_close.
+
+(* BEFORE that repair (VLateDrop: the queue and the manager handle were dropped only when send_task returned): calls
+   registered in the manager were not failed until the transport's close() had returned *)
+Theorem C09_pending_fail_before_transport_close_refuted_old :
+  exists tr h, let s := run VLateDrop init tr in
     reason s = Some CRecv /\ front_closed s = true /\ rp s = RExited /\ get_c s h = Some CInMgr /\
-    forall tr', ~ In LSTransportClosed tr' -> ~ In LClientDrop tr' -> get_c (run false s tr') h = Some CInMgr.
+    forall tr', ~ In LSTransportClosed tr' -> ~ In LClientDrop tr' -> get_c (run VLateDrop s tr') h = Some CInMgr.
 Proof. exact pending_blocked_refuted. Qed.
-Print Assumptions C09_pending_fail_before_transport_close_refuted.
+Print Assumptions C09_pending_fail_before_transport_close_refuted_old.
 
 (* the OLD send_task epilogue (close front channel, close transport, report): a call made in the window gets the placeholder *)
 Theorem C09_old_order_refuted_old :
-  exists tr h, let s := run true init tr in
+  exists tr h, let s := run VOldOrder init tr in
     get_c s h = Some (CDone OPlaceholder) /\ h_recvend s = false /\ dropped s = false.
 Proof. exact old_order_refuted. Qed.
 Print Assumptions C09_old_order_refuted_old.
 
 (* what the dead clean-exit branch of read_task would do if a receiver could end its stream *)
-Theorem C09_no_placeholder_recv_end_refuted : exists tr h, get_c (run false init tr) h = Some (CDone OPlaceholder).
+Theorem C09_no_placeholder_recv_end_refuted : exists tr h, get_c (run VNow init tr) h = Some (CDone OPlaceholder).
 Proof. exact recv_end_refuted. Qed.
 Print Assumptions C09_no_placeholder_recv_end_refuted.
 
@@ -108,14 +123,21 @@ Print Assumptions C09_old_overflow_refuted_old.
 
 (* ---------- non-vacuity ---------- *)
 Example C09_fault_run_nonvacuous :
-  let s := run false init (tr_blocked ++ [LSTransportClosed; LCallerDropped 1; LReadErr 1; LOnDisc 2; LReadErr 2]) in
+  let s := run VNow init (tr_blocked ++ [LSTransportClosed; LCallerDropped 1; LReadErr 1; LOnDisc 2; LReadErr 2]) in
   all_exited s = true /\ get_c s 1 = Some (CDone (OCause CRecv)) /\ get_c s 2 = Some (CDone (OCause CRecv)) /\
-  is_connected s = false /\ started (run false init [LRecvFault]) = true /\ mu (run false init [LRecvFault]) = 10%nat.
+  is_connected s = false /\ started (run VNow init [LRecvFault]) = true /\ mu (run VNow init [LRecvFault]) = 10%nat.
 Proof. exact fault_run_example. Qed.
 
+Example C09_no_wait_nonvacuous :
+  let s := run VNow init tr_blocked in
+  sp s = SClosing /\ reason s = Some CRecv /\ get_c s 1 = Some CInMgr /\
+  sp (run VNow s [LNewCall 2; LRecvFault; LCallerDropped 1; LReadErr 1]) = SClosing /\
+  get_c (run VNow s [LNewCall 2; LRecvFault; LCallerDropped 1; LReadErr 1]) 1 = Some (CDone (OCause CRecv)).
+Proof. exact no_wait_example. Qed.
+
 Example C09_same_schedule_new_order :
-  get_c (run false init tr_old) 2 = Some CQueued /\
-  get_c (run false init (tr_old ++ [LSReport; LWRecv; LWStore; LWExit; LSClosedSeen; LSCloseFront; LRNotice; LRReport; LRExit;
+  get_c (run VNow init tr_old) 2 = Some CQueued /\
+  get_c (run VNow init (tr_old ++ [LSReport; LWRecv; LWStore; LWExit; LSClosedSeen; LSCloseFront; LRNotice; LRReport; LRExit;
                                     LSTransportClosed; LCallerDropped 2; LReadErr 2])) 2 = Some (CDone (OCause CSend)).
 Proof. exact new_order_same_schedule. Qed.
 
